@@ -18,6 +18,7 @@ import copy
 import itertools
 
 from ..astutil import AnalysisError, dotted, src, walk_local, norm
+from .. import pattern as P
 from ..absint import Interp, Reject, TypeTok
 from ..rules import sibling as sib
 from ..rules import shape
@@ -123,7 +124,7 @@ def rule_ctor(run):
             if isinstance(br, ast.If) and isinstance(br.test, ast.Call) and dotted(br.test.func) == "instance_check" and dotted(br.test.args[1]) in ("Signed", "Unsigned"):
                 z = [a for a in br.body if isinstance(a, ast.Assign) and dotted(a.targets[0]) == "zeros"]
                 sa = [e for e in br.body if isinstance(e, ast.Expr) and isinstance(e.value, ast.Call) and dotted(e.value.func) == "static_assert"]
-                ok = len(z) == 1 and src(z[0].value) == "-self._exp" and len(sa) == 1 and src(sa[0].value.args[0]) == "zeros >= 0" and z[0].lineno < sa[0].lineno
+                ok = len(z) == 1 and P.T(z[0].value) == "-self._exp" and len(sa) == 1 and P.T(sa[0].value.args[0]) == "zeros >= 0" and z[0].lineno < sa[0].lineno
                 n += 1
                 run.ob(ok, f"{kind}.__init__", file=mod.rel, line=br.lineno, detail=f"from-{dotted(br.test.args[1])}",
                        expected="zeros = -self._exp; static_assert(zeros >= 0)", found="; ".join(src(x) for x in z + sa)[:100])
@@ -277,7 +278,7 @@ def rule_round(run):
         run.ob(form == ref, f"{kind}.resize_fn", file=mod.rel, line=b.lineno, detail=f"round-block#{i}", expected="identical to the other copies", found="identical" if form == ref else f"deviant copy: `if {src(b.test)}: ...`")
     # the reference form itself
     kind, b = blocks[forms.index(ref)]
-    ok = src(b.test) == "cutoff == 1" and "self._val[cutoff - 1] and self._val[cutoff]" in src(b.body[0]) and "self._val[cutoff - 1] and (self._val[cutoff] or self._val[cutoff - 2:0])" in src(b.orelse[0])
+    ok = P.T(b.test) == "cutoff == 1" and "self._val[cutoff - 1] and self._val[cutoff]" in P.T(b.body[0]) and "self._val[cutoff - 1] and (self._val[cutoff] or self._val[cutoff - 2:0])" in P.T(b.orelse[0])
     run.ob(ok, "resize_fn", file=mod.rel, line=b.lineno, detail="round-rule", expected="ties to even on the bits [cutoff], [cutoff-1], [cutoff-2:0]", found="ok" if ok else src(b)[:120])
     run.end()
 
@@ -290,12 +291,12 @@ def rule_sat(run):
     if not {"does_overflow", "does_underflow", "overflow_bits", "sign_bit"} <= set(a):
         raise AnalysisError("saturation variables of SFixed.resize_fn not found")
     ov, un = a["does_overflow"], a["does_underflow"]
-    ok = src(ov.value) == "not sign_bit and overflow_bits"
+    ok = P.T(ov.value) == "not sign_bit and overflow_bits"
     run.ob(ok, "SFixed.resize_fn", file=mod.rel, line=ov.lineno, detail="overflow", expected="not sign_bit and overflow_bits", found=src(ov.value))
     # mirror: sign_bit <-> not sign_bit, overflow_bits <-> ~overflow_bits
-    ok = src(un.value) == "sign_bit and ~overflow_bits"
+    ok = P.T(un.value) == "sign_bit and ~overflow_bits"
     run.ob(ok, "SFixed.resize_fn", file=mod.rel, line=un.lineno, detail="underflow-mirror", expected="sign_bit and ~overflow_bits (some dropped bit differs from the sign)", found=src(un.value))
-    ok = src(a["sign_bit"].value) == "self._val.msb()" and src(a["overflow_bits"].value) == "self._val.lsb(rest=1).msb(overflow_bitcnt)"
+    ok = P.T(a["sign_bit"].value) == "self._val.msb()" and P.T(a["overflow_bits"].value) == "self._val.lsb(rest=1).msb(overflow_bitcnt)"
     run.ob(ok, "SFixed.resize_fn", file=mod.rel, line=a["sign_bit"].lineno, detail="dropped-bits", expected="sign = msb; dropped bits = the overflow_bitcnt bits below the sign", found=f"{src(a['sign_bit'].value)}; {src(a['overflow_bits'].value)}")
     # priority: underflow before overflow before the default, in every choose_first
     for c in ast.walk(f.node):
@@ -306,7 +307,7 @@ def rule_sat(run):
             run.ob(ok, "SFixed.resize_fn", file=mod.rel, line=c.lineno, detail=f"saturation-values@{c.lineno - f.node.lineno}", expected="(underflow -> min), (overflow -> max), default", found=str(list(zip(first, vals)))[:100])
     g = mod.func("UFixed.resize_fn")
     u = [x for x in ast.walk(g.node) if isinstance(x, ast.Assign) and dotted(x.targets[0]) == "does_overflow"]
-    ok = len(u) == 1 and src(u[0].value) == "bool(overflow_bits)"
+    ok = len(u) == 1 and P.T(u[0].value) == "bool(overflow_bits)"
     run.ob(ok, "UFixed.resize_fn", file=mod.rel, line=(u[0].lineno if u else g.node.lineno), detail="overflow", expected="bool(overflow_bits)", found=src(u[0].value) if u else "missing")
     run.end()
 
